@@ -54,7 +54,10 @@ import (
 	"github.com/temporalio/s2s-proxy/logging"
 )
 
-const vlReqKey = "verif-req"
+const (
+	vlReqKey = "verif-req"
+	vlRawFVI = 100 // failover version increment the fake clusters answer
+)
 
 // ---------------------------------------------------------------- fake Temporal cluster
 
@@ -93,7 +96,7 @@ func (u *vlUpstream) stop()        { u.srv.Stop() }
 
 func (u *vlUpstream) DescribeCluster(ctx context.Context, _ *adminservice.DescribeClusterRequest) (*adminservice.DescribeClusterResponse, error) {
 	return &adminservice.DescribeClusterResponse{ClusterName: u.label, ClusterId: "id-" + u.label, HistoryShardCount: u.count,
-		FailoverVersionIncrement: 100, InitialFailoverVersion: 1, IsGlobalNamespaceEnabled: true}, nil
+		FailoverVersionIncrement: vlRawFVI, InitialFailoverVersion: 1, IsGlobalNamespaceEnabled: true}, nil
 }
 
 func (u *vlUpstream) StreamWorkflowReplicationMessages(s adminservice.AdminService_StreamWorkflowReplicationMessagesServer) error {
@@ -131,6 +134,8 @@ type vlRig struct {
 	cc                *ClusterConnection
 	cancel            context.CancelFunc
 	conn              map[string]*grpc.ClientConn // "inbound" / "outbound"
+	fviLocal          int64                       // configured failoverVersionIncrementTranslation (0 = none)
+	fviRemote         int64
 }
 
 func vlLoggers() logging.LoggerProvider {
@@ -145,7 +150,13 @@ var vlRigSeq struct {
 // vlNewRig builds and starts a real ClusterConnection.  localCount/remoteCount are the real shard counts of the fake
 // clusters; sc is the proxy's shardCount configuration.
 func vlNewRig(sc config.ShardCountConfig, localCount, remoteCount int32) (*vlRig, error) {
-	r := &vlRig{conn: map[string]*grpc.ClientConn{}}
+	return vlNewRigFVI(sc, localCount, remoteCount, 0, 0)
+}
+
+// vlNewRigFVI: as vlNewRig, with a failoverVersionIncrementTranslation (0 = not configured) -- the other response
+// translation DescribeCluster applies, which must not interfere with the shard-count override.
+func vlNewRigFVI(sc config.ShardCountConfig, localCount, remoteCount int32, fviLocal, fviRemote int64) (*vlRig, error) {
+	r := &vlRig{conn: map[string]*grpc.ClientConn{}, fviLocal: fviLocal, fviRemote: fviRemote}
 	var err error
 	if r.upLocal, err = vlNewUpstream("local", localCount); err != nil {
 		return nil, err
@@ -166,6 +177,7 @@ func vlNewRig(sc config.ShardCountConfig, localCount, remoteCount int32) (*vlRig
 			TcpServer: config.TCPTLSInfo{ConnectionString: "127.0.0.1:0"},
 			TcpClient: config.TCPTLSInfo{ConnectionString: r.upRemote.addr()}},
 		ShardCountConfig: sc,
+		FVITranslation:   config.IntMapping{Local: fviLocal, Remote: fviRemote},
 	}
 	var lifetime context.Context
 	lifetime, r.cancel = context.WithCancel(context.Background())
@@ -315,6 +327,8 @@ type vlRec struct {
 	Server   int64  `json:"server"`
 	Direct   int32  `json:"direct"` // mapShardIDUnique(common.LCM(l,r), own count of the reached cluster, s); -1 = panic
 	Wf       []vlWf `json:"wf"`
+	// describe: failover version increment: configured translation, what the fake cluster answered, what the proxy answered
+	FviLocal, FviRemote, FviRaw, Fvi int64
 	// arrival order: which ordering scenario this open belongs to and its position on that server object
 	Order string `json:"order"` // "base" | "highup" | "down" | "random" | "frontier"
 	Seq   int    `json:"seq"`
@@ -330,6 +344,7 @@ func (r vlRec) MarshalJSON() ([]byte, error) {
 		m["gcd"], m["lcm"], m["gcdr"], m["lcmr"], m["fail"], m["detail"] = r.Gcd, r.Lcm, r.GcdR, r.LcmR, r.Fail, r.Detail
 	case "describe":
 		m["dir"], m["up"], m["raw"], m["reported"], m["fail"], m["detail"] = r.Dir, r.Up, r.Raw, r.Reported, r.Fail, r.Detail
+		m["fviLocal"], m["fviRemote"], m["fviRaw"], m["fvi"] = r.FviLocal, r.FviRemote, r.FviRaw, r.Fvi
 	case "stream":
 		wf := r.Wf
 		if wf == nil {
@@ -362,6 +377,8 @@ type vlPair struct {
 	Sweep    int    `json:"sweep"`
 	Frontier int    `json:"frontier"`
 	Order    string `json:"order"` // replay: only this scenario ("" = all), with Ids as the exact arrival order
+	// configuration dimension: failoverVersionIncrementTranslation {local, remote} of the ClusterConnection (0 = none)
+	Fvi []int64 `json:"fvi"`
 }
 
 const (
@@ -518,8 +535,9 @@ func (r *vlRig) vlGrpc(dir string, md metadata.MD, req string, bound time.Durati
 }
 
 func vlDescribe(rig *vlRig, l, r int32, dir string) vlRec {
-	rec := vlRec{Ev: "describe", L: l, R: r, Dir: dir, Up: "none", Reported: -1}
-	ctx, cancel := context.WithTimeout(context.Background(), 10*time.Second)
+	rec := vlRec{Ev: "describe", L: l, R: r, Dir: dir, Up: "none", Reported: -1, FviLocal: rig.fviLocal, FviRemote: rig.fviRemote,
+		FviRaw: vlRawFVI, Fvi: -1}
+	ctx, cancel := context.WithTimeout(context.Background(), 30*time.Second)
 	defer cancel()
 	resp, err := adminservice.NewAdminServiceClient(rig.conn[dir]).DescribeCluster(ctx, &adminservice.DescribeClusterRequest{})
 	if err != nil {
@@ -527,6 +545,7 @@ func vlDescribe(rig *vlRig, l, r int32, dir string) vlRec {
 		return rec
 	}
 	rec.Reported = resp.GetHistoryShardCount()
+	rec.Fvi = resp.GetFailoverVersionIncrement()
 	rec.Up = resp.GetClusterName() // the fake cluster names itself
 	switch rec.Up {
 	case "local":
@@ -540,7 +559,11 @@ func vlDescribe(rig *vlRig, l, r int32, dir string) vlRec {
 func vlPairRun(p vlPair, seed int64, bound time.Duration) ([]vlRec, error) {
 	var out []vlRec
 	out = append(out, vlFn(p.L, p.R))
-	rig, err := vlNewRig(config.ShardCountConfig{Mode: config.ShardCountLCM, LocalShardCount: p.L, RemoteShardCount: p.R}, p.L, p.R)
+	var fviL, fviR int64
+	if len(p.Fvi) == 2 {
+		fviL, fviR = p.Fvi[0], p.Fvi[1]
+	}
+	rig, err := vlNewRigFVI(config.ShardCountConfig{Mode: config.ShardCountLCM, LocalShardCount: p.L, RemoteShardCount: p.R}, p.L, p.R, fviL, fviR)
 	if err != nil {
 		return nil, err
 	}
@@ -622,7 +645,7 @@ func vlPairRun(p vlPair, seed int64, bound time.Duration) ([]vlRec, error) {
 		// load.  Only "never" is a failure (a leaked lock does not recover), so the bound is generous there.
 		bound := bound
 		if s > 1<<24 {
-			bound = 40 * time.Second
+			bound = 60 * time.Second
 		}
 		var md metadata.MD
 		if viaGrpc {
@@ -708,7 +731,7 @@ func vlPairRun(p vlPair, seed int64, bound time.Duration) ([]vlRec, error) {
 		if p.Order != "" && p.Order != order {
 			return nil
 		}
-		r2, err := vlNewRig(config.ShardCountConfig{Mode: config.ShardCountLCM, LocalShardCount: p.L, RemoteShardCount: p.R}, p.L, p.R)
+		r2, err := vlNewRigFVI(config.ShardCountConfig{Mode: config.ShardCountLCM, LocalShardCount: p.L, RemoteShardCount: p.R}, p.L, p.R, fviL, fviR)
 		if err != nil {
 			return err
 		}
@@ -839,7 +862,9 @@ func TestVerifLcm(t *testing.T) {
 		}
 		pairs = append(pairs, p)
 	}
-	bound := 3 * time.Second
+	// "does not answer" means never (a leaked lock, a lost wake-up): the bound only has to outlast scheduling delays of a
+	// heavily oversubscribed machine (3 s was exceeded at load average 60 on 16 cores); it costs time only on a wedged tree
+	bound := 20 * time.Second
 	results := make([][]vlRec, len(pairs))
 	errs := make([]error, len(pairs))
 	par := 4
